@@ -6,11 +6,15 @@
     [xloop_segs]: after the whole loop, every recorded segment still holds exactly those
     entities (destination tables only grow at their end, and are never sources).
     [batch_exchange_q_visits]: the positions enumerated by the query of Batch.AddQ /
-    RemoveQ / ExchangeQ (Relations.ExchangeBatchQ) hold exactly the matching entities. *)
+    RemoveQ / ExchangeQ (Relations.ExchangeBatchQ) hold exactly the matching entities.
+    [batch_set_relation_q_visits]: the query of Batch.SetRelationQ holds exactly the entities of
+    the tables that were re-targeted (tables that already had the target do not appear).
+    [batch_new_q_visits]: the query of Builder.NewBatchQ holds exactly the new entities. *)
 From Arche Require Import Model.Base Model.Pool Model.Filter Model.World Model.Ops
   Proofs.Tables Proofs.Bits Proofs.Store Proofs.Graph Proofs.WorldInv Proofs.Cursor
   Proofs.Frame Proofs.StepFrame
-  Proofs.RelGraph Proofs.RelWorld Proofs.RelRefine Proofs.QueryExact Proofs.CacheInv Proofs.BatchMove Proofs.BatchExchange.
+  Proofs.RelGraph Proofs.RelWorld Proofs.RelRefine Proofs.QueryExact Proofs.CacheInv Proofs.BatchMove Proofs.BatchExchange
+  Proofs.BatchSetRel.
 
 Definition seg_ents (w : world) (s : seg) : list Entity :=
   if s_skip s then [] else take (s_end s - s_start s) (drop (s_start s) (tbl_ents w (s_tid s))).
@@ -366,4 +370,232 @@ Proof.
       by rewrite firstn_all.
     + cbn [s_end s_tid]. rewrite Hfin, app_length. unfold tlen. lia.
     + cbn [s_start s_end]. lia.
+Qed.
+
+(** ** Batch.SetRelationQ: segments of the re-targeted tables *)
+Lemma set_relation_table_seg w live src st rid target w' sg :
+  world_okr w live -> cache_ok w -> w_tables w !! src = Some st -> t_ents st <> [] ->
+  set_relation_table w src rid target = Some (Some (w', sg)) ->
+  exists dt' pre, w_tables w' !! s_tid sg = Some dt' /\ t_ents dt' = pre ++ t_ents st /\
+    s_start sg = length pre /\ s_end sg = length pre + tlen st /\ s_skip sg = false /\ s_tid sg <> src /\
+    t_target dt' = target /\ t_target st <> target /\
+    (forall t, w_tables w !! s_tid sg = Some t -> t_ents t <> [] -> t_target t = target /\ pre = t_ents t).
+Proof.
+  intros [S G] C Hst Hstne H.
+  unfold set_relation_table in H. rewrite Hst in H.
+  destruct (so_table _ _ S src st Hst) as (sn & Hsn & Hsok). rewrite Hsn in H.
+  destruct (ent_eqb (t_target st) target) eqn:Heq; [done|]. apply ent_eqb_neq in Heq.
+  destruct (negb (check_relation w src rid)) eqn:Hchk; [done|]. apply negb_false_iff in Hchk.
+  unfold check_relation in Hchk. rewrite Hst, Hsn in Hchk.
+  destruct (n_rel sn) as [r|] eqn:Hrel; [|done]. apply Nat.eqb_eq in Hchk as ->.
+  assert (Hdst : exists w1 dst dt dn, (match node_get_table sn target with
+                            | Some tid => (w, tid)
+                            | None => create_table w (t_node st) target true
+                            end) = (w1, dst) /\ ext_r w w1 /\ rgraph_ok w1 /\
+            w_tables w1 !! dst = Some dt /\ t_node dt = t_node st /\ t_target dt = target /\
+            w_nodes w1 !! t_node st = Some dn).
+  { destruct (node_get_table sn target) as [tid|] eqn:Hget.
+    - unfold node_get_table in Hget. rewrite (proj2 (node_has_rel_true sn) (ex_intro _ rid Hrel)) in Hget.
+      destruct (rg_tmap _ G _ sn target tid Hsn Hget) as (t & Ht & Htn & Htt & Hta).
+      exists w, tid, t, sn. split; [done|]. split; [apply ext_r_refl|]. done.
+    - pose proof (create_table_rok w (t_node st) sn target true G Hsn Hget) as Hc.
+      destruct (create_table w (t_node st) target true) as [wc tid].
+      destruct Hc as (E3 & G3 & t & nd' & Ht & Htn & _ & Hta & Htt & Hnd' & Hmn & Hrn & Hin).
+      rewrite (proj2 (node_has_rel_true sn) (ex_intro _ rid Hrel)) in Htt.
+      exists wc, tid, t, nd'. done. }
+  destruct Hdst as (w1 & dst & dt & dn & Hgt & E & G1 & Hdt & Hdtn & Hdtt & Hdn).
+  rewrite Hgt in H.
+  assert (S1 : store_ok w1 live) by (by eapply ext_r_store_ok).
+  assert (Hst1 : w_tables w1 !! src = Some st).
+  { destruct (xr_tables _ _ E src st Hst) as (t' & Ht' & _ & _ & _ & _ & Q). by rewrite (Q Hstne) in Ht'. }
+  assert (Hsd : src <> dst) by (intros <-; rewrite Hst1 in Hdt; by injection Hdt as <-).
+  assert (Hdn' : w_nodes w1 !! t_node dt = Some dn) by (by rewrite Hdtn).
+  assert (Hcap : 0 < node_capinc w1 dn).
+  { unfold node_capinc. destruct (rg_capinc _ G1). by destruct (node_has_rel dn). }
+  pose proof (move_all_ok w1 live src dst (n_mask sn) st dt dn dn S1 Hsd Hst1 Hdt Hdn Hdn' Hcap) as HM.
+  destruct (move_all w1 src dst (n_mask sn)) as [w2 start]. simpl in HM.
+  destruct HM as (_ & _ & _ & _ & _ & _ & _ & _ & _ & _ & _ & (dt2 & Hdt2' & Hdt2e & _ & Hdt2t & _) & Hstartv).
+  set (w3 := set_tbit w2 target) in *.
+  assert (Ht3 : w_tables w3 = w_tables w2) by (unfold w3, set_tbit; by destruct (ent_is_zero target)).
+  assert (Hoth4 : forall tid, tid <> src -> w_tables (cleanup_table w3 src) !! tid = w_tables w3 !! tid).
+  { intros tid Hne. unfold cleanup_table. destruct (w_tables w3 !! src) as [tt|]; [|done].
+    destruct (w_nodes w3 !! t_node tt); [|done]. destruct (_ || _); [done|]. destruct (_ || _); [done|].
+    unfold retire_table. destruct (w_tables w3 !! src) as [t5|]; [|done]. destruct (w_nodes w3 !! t_node t5); [|done].
+    simpl. by rewrite list_lookup_insert_ne. }
+  assert (Hfin : w_tables (cleanup_table w3 src) !! dst = Some dt2) by (rewrite Hoth4 by done; by rewrite Ht3).
+  rewrite Hfin in H. injection H as <- <-.
+  exists dt2, (t_ents dt). cbn [s_tid s_start s_end s_skip].
+  split; [done|]. split; [done|]. rewrite Hstartv. unfold tlen. split; [done|]. split; [by rewrite Hdt2e, app_length|].
+  split; [done|]. split; [done|]. split; [congruence|]. split; [done|].
+  intros t Ht Hne. destruct (xr_tables _ _ E dst t Ht) as (t' & Ht' & _ & _ & _ & _ & Q).
+  rewrite Hdt in Ht'. injection Ht' as <-. rewrite (Q Hne) in *. done.
+Qed.
+
+Definition moved_b (T : Entity) (w : world) (tid : nat) : bool :=
+  match w_tables w !! tid with Some t => negb (ent_eqb (t_target t) T) | None => false end.
+Definition retargeted (T : Entity) (w : world) (l : list nat) : list nat :=
+  filter (fun tid => moved_b T w tid = true) l.
+
+Lemma srloop_segs live rid T : forall l w segs0 pr w' segs,
+  NoDup l -> world_okr w live -> cache_ok w ->
+  (forall tid, tid ∈ l -> tbl_ents w tid <> []) ->
+  srloop rid T w l segs0 pr = inl (Some (w', segs)) ->
+  exists new, segs = segs0 ++ new /\ flat_map (seg_ents w') new = table_ents w (retargeted T w l) /\
+    Forall (fun s => s_skip s = false /\ s_start s < s_end s /\ s_end s <= length (tbl_ents w' (s_tid s))) new /\
+    (forall tid0 t0, w_tables w !! tid0 = Some t0 -> t_ents t0 <> [] -> (tid0 ∉ l \/ t_target t0 = T) ->
+       exists t0', w_tables w' !! tid0 = Some t0' /\ t_ents t0 `prefix_of` t_ents t0' /\ t_target t0' = t_target t0).
+Proof.
+  induction l as [|tid r IH]; intros w segs0 pr w' segs Hnd K C Hne H.
+  { simpl in H. injection H as <- <-. exists []. rewrite app_nil_r. split; [done|]. split; [done|]. split; [constructor|].
+    intros tid0 t0 Ht0 _ _. by exists t0. }
+  apply NoDup_cons in Hnd as [Hnotin Hnd].
+  assert (Htne : tbl_ents w tid <> []) by (apply Hne, elem_of_list_here).
+  unfold srloop in H. simpl in H.
+  assert (Hskip : table_skip w tid = false).
+  { unfold table_skip, tbl_ents in *. destruct (w_tables w !! tid) as [t|]; [|done]. apply Nat.eqb_neq. unfold tlen. by destruct (t_ents t). }
+  rewrite Hskip in H.
+  destruct (w_tables w !! tid) as [st|] eqn:Hst; [|unfold tbl_ents in Htne; by rewrite Hst in Htne].
+  rewrite (tbl_ents_ne w tid st Hst) in Htne.
+  destruct (set_relation_table w tid rid T) as [[[w1 s]|]|] eqn:Hx; simpl in H; [| |done].
+  - (* the table is moved *)
+    destruct (set_relation_table_rok w live tid st rid T w1 s K C Hst Htne Hx)
+      as (sn & dst & Hsn & Hrel & Htgne & Hsd & K1 & C1 & F1 & Hp1 & Hil1 & HN1 & Hoth1 & Hmoved1 & Htab1 & Hdst1).
+    destruct (set_relation_table_seg w live tid st rid T w1 s K C Hst Htne Hx)
+      as (dt' & pre & Hdt' & Hdte & Hss & Hse & Hsk & Hsne & Hdtt & _ & Hdstw).
+    (* what the first step does to any non-empty table of w other than the source *)
+    assert (Hstep : forall tid0 t0, tid0 <> tid -> w_tables w !! tid0 = Some t0 -> t_ents t0 <> [] ->
+              exists t1, w_tables w1 !! tid0 = Some t1 /\ t_ents t0 `prefix_of` t_ents t1 /\
+                ((tid0 <> s_tid s /\ t1 = t0) \/ (tid0 = s_tid s /\ t_target t0 = T /\ t_target t1 = T /\ t_ents t1 = t_ents t0 ++ t_ents st))).
+    { intros tid0 t0 Hne0 Ht0 Hnn. destruct (decide (tid0 = s_tid s)) as [->|Hd].
+      - destruct (Hdstw t0 Ht0 Hnn) as [Htt ->]. exists dt'. split; [done|]. split; [rewrite Hdte; by apply prefix_app_r|].
+        right. done.
+      - (* not the segment's table: is it the destination named by the other lemma? *)
+        destruct (decide (tid0 = dst)) as [->|Hdd].
+        + destruct (Hdst1 t0 Ht0) as (t1 & Ht1 & He1 & _).
+          (* then it received the entities, as the segment's table did: the same table *)
+          exfalso. destruct (t_ents st) as [|e0 es0] eqn:Hes; [done|].
+          assert (Hin1 : e0 ∈ t_ents t1) by (rewrite He1; apply elem_of_app; right; apply elem_of_list_here).
+          assert (Hin2 : e0 ∈ t_ents dt') by (rewrite Hdte; apply elem_of_app; right; apply elem_of_list_here).
+          apply elem_of_list_lookup in Hin1 as [i1 Hi1]. apply elem_of_list_lookup in Hin2 as [i2 Hi2].
+          destruct (so_rows _ _ (wr_store _ _ K1) dst t1 i1 e0 Ht1 Hi1) as [_ L1].
+          destruct (so_rows _ _ (wr_store _ _ K1) (s_tid s) dt' i2 e0 Hdt' Hi2) as [_ L2].
+          rewrite L1 in L2. injection L2 as Heq _. by apply Hd.
+        + exists t0. split; [by apply Htab1|]. split; [done|]. by left. }
+    assert (Hne1 : forall tid', tid' ∈ r -> tbl_ents w1 tid' <> []).
+    { intros tid' Hin. assert (tid' <> tid) by (intros ->; done).
+      pose proof (Hne tid' (elem_of_list_further _ _ _ Hin)) as Hn'. unfold tbl_ents in Hn' |- *.
+      destruct (w_tables w !! tid') as [t|] eqn:Ht; [|done].
+      destruct (Hstep tid' t H0 Ht Hn') as (t1 & -> & [ext Hp] & _). rewrite Hp. intros Hx'. apply app_eq_nil in Hx' as [? _]. done. }
+    destruct (IH w1 (segs0 ++ [s]) true w' segs Hnd K1 C1 Hne1 H) as (new & -> & Hflat & Hall & Hpre).
+    (* the segment's table holds the moved entities at the end *)
+    assert (Hne_dt : t_ents dt' <> []) by (rewrite Hdte; intros Hx'; apply app_eq_nil in Hx' as [_ ?]; done).
+    destruct (Hpre (s_tid s) dt' Hdt' Hne_dt (or_intror Hdtt)) as (dt'' & Hdt'' & Hpfx & _).
+    exists (s :: new). split; [by rewrite <- app_assoc|]. split.
+    + (* entities *)
+      assert (Hret : retargeted T w (tid :: r) = tid :: retargeted T w r).
+      { unfold retargeted. rewrite filter_cons. rewrite decide_True; [done|]. unfold moved_b. rewrite Hst.
+        apply negb_true_iff. by apply ent_eqb_neq. }
+      rewrite Hret. cbn [flat_map table_ents]. f_equal.
+      * unfold seg_ents. rewrite Hsk, Hss, Hse. rewrite (tbl_ents_ne _ _ _ Hdt''), (tbl_ents_ne _ _ _ Hst).
+        destruct Hpfx as [ext Hext]. rewrite Hext, Hdte, <- app_assoc.
+        rewrite drop_app_alt by done. replace (length pre + tlen st - length pre) with (length (t_ents st)) by (unfold tlen; lia).
+        by rewrite take_app.
+      * rewrite Hflat.
+        (* the remaining re-targeted tables and their entities are those of w *)
+        assert (Hsame : forall tid', tid' ∈ r ->
+                  moved_b T w1 tid' = moved_b T w tid' /\ (moved_b T w tid' = true -> tbl_ents w1 tid' = tbl_ents w tid')).
+        { intros tid' Hin. assert (tid' <> tid) by (intros ->; done).
+          pose proof (Hne tid' (elem_of_list_further _ _ _ Hin)) as Hn'. unfold moved_b, tbl_ents in Hn' |- *.
+          destruct (w_tables w !! tid') as [t|] eqn:Ht; [|done].
+          destruct (Hstep tid' t H0 Ht Hn') as (t1 & -> & _ & [[_ ->]|(_ & Ht0 & Ht1 & _)]); [done|].
+          rewrite Ht0, Ht1, ent_eqb_refl. done. }
+        unfold table_ents, retargeted. clear -Hsame. induction r as [|x l IHl]; [done|].
+        assert (Hx := Hsame x (elem_of_list_here _ _)).
+        assert (Hl : forall tid', tid' ∈ l -> moved_b T w1 tid' = moved_b T w tid' /\ (moved_b T w tid' = true -> tbl_ents w1 tid' = tbl_ents w tid'))
+          by (intros tid' Hin; apply (Hsame tid'); by apply elem_of_list_further).
+        specialize (IHl Hl). rewrite !filter_cons. destruct Hx as [Heqb Hents]. rewrite Heqb.
+        destruct (decide (moved_b T w x = true)) as [D1|D1]; [|exact IHl].
+        simpl. rewrite IHl. f_equal. by apply Hents.
+    + split.
+      * constructor; [|done]. split; [done|]. rewrite Hss, Hse, (tbl_ents_ne _ _ _ Hdt'').
+        destruct Hpfx as [ext Hext]. rewrite Hext, Hdte, !app_length. unfold tlen in *. split; [|lia].
+        destruct (t_ents st); [done|simpl; lia].
+      * intros tid0 t0 Ht0 Hnn Hcond.
+        assert (Hne0 : tid0 <> tid).
+        { intros ->. rewrite Hst in Ht0. injection Ht0 as <-. destruct Hcond as [Hc|Hc]; [apply Hc, elem_of_list_here|done]. }
+        destruct (Hstep tid0 t0 Hne0 Ht0 Hnn) as (t1 & Ht1 & Hp1' & Hcase).
+        assert (Hnn1 : t_ents t1 <> []).
+        { destruct Hp1' as [ext Hp]. rewrite Hp. intros Hx'. apply app_eq_nil in Hx' as [? _]. done. }
+        assert (Hcond1 : tid0 ∉ r \/ t_target t1 = T).
+        { destruct Hcase as [[_ ->]|(_ & _ & Htt1 & _)]; [|by right].
+          destruct Hcond as [Hc|Hc]; [left; intros Hin; apply Hc; by apply elem_of_list_further|by right]. }
+        destruct (Hpre tid0 t1 Ht1 Hnn1 Hcond1) as (t2 & Ht2 & Hp2 & Htg2).
+        exists t2. split; [done|]. split; [by etrans|].
+        destruct Hcase as [[_ ->]|(_ & Htt0 & Htt1 & _)]; congruence.
+  - (* the table already has the target: skipped *)
+    assert (Htg : t_target st = T).
+    { unfold set_relation_table in Hx. rewrite Hst in Hx. destruct (w_nodes w !! t_node st); [|done].
+      destruct (ent_eqb (t_target st) T) eqn:Heq; [by apply ent_eqb_eq in Heq|]. destruct (negb _); [done|].
+      destruct (match node_get_table _ _ with Some tid0 => _ | None => _ end). destruct (move_all _ _ _ _). done. }
+    assert (Hne' : forall tid', tid' ∈ r -> tbl_ents w tid' <> []) by (intros tid' Hin; apply Hne; by apply elem_of_list_further).
+    destruct (IH w segs0 pr w' segs Hnd K C Hne' H) as (new & -> & Hflat & Hall & Hpre).
+    exists new. split; [done|]. split.
+    + rewrite Hflat. unfold retargeted. rewrite filter_cons. rewrite decide_False; [done|]. unfold moved_b. rewrite Hst, Htg, ent_eqb_refl. done.
+    + split; [done|]. intros tid0 t0 Ht0 Hnn Hcond. apply Hpre; try done.
+      destruct Hcond as [Hc|Hc]; [left; intros Hin; apply Hc; by apply elem_of_list_further|by right].
+Qed.
+
+Lemma table_ents_retargeted_nonempty T w tids :
+  table_ents w (retargeted T w (nonempty_tables w tids)) = table_ents w (retargeted T w tids).
+Proof.
+  unfold table_ents, retargeted, nonempty_tables. induction tids as [|tid r IH]; [done|].
+  rewrite (filter_cons _ tid r). destruct (decide (table_skip w tid = false)) as [Hs|Hs].
+  - rewrite !filter_cons. destruct (decide (moved_b T w tid = true)); simpl; by rewrite IH.
+  - rewrite filter_cons. destruct (decide (moved_b T w tid = true)); simpl; rewrite IH; [|done].
+    apply not_false_is_true in Hs. unfold table_skip, tbl_ents in *. destruct (w_tables w !! tid) as [t|]; [|done].
+    apply Nat.eqb_eq in Hs. unfold tlen in Hs. by destruct (t_ents t).
+Qed.
+
+(** ** Batch.SetRelationQ / Relations.SetBatchQ *)
+Theorem batch_set_relation_q_visits w A f rid T w2 h evs :
+  R w A -> cache_ok w ->
+  op_batch_set_relation_q w (FPlain f) rid T = (w2, Ok (VNat h), evs) ->
+  exists w' n evs' q,
+    op_batch_set_relation w (FPlain f) rid T = (w', Ok (VNat n), evs') /\
+    w_queries w2 = w_queries w' ++ [q] /\ h = length (w_queries w') /\ w_tables w2 = w_tables w' /\
+    w_index w2 = w_index w' /\ w_pool w2 = w_pool w' /\ w_nodes w2 = w_nodes w' /\
+    q_closed q = false /\
+    omap (pos_ent w2) (enum (q_segs q)) = table_ents w (retargeted T w (get_tables w f)).
+Proof.
+  intros HR C H. pose proof HR as [K Hr Hu He].
+  unfold op_batch_set_relation_q in H. unfold op_batch_set_relation.
+  destruct (set_relation_batch_nn w (FPlain f) rid T) as [[[[w1 n] segs]|]|[]] eqn:Hb; simpl in H; try done.
+  destruct (open_query w1 _ _) as [[w3 h3]|] eqn:Hq; [|done]. injection H as <- <- _.
+  unfold open_query in Hq. destruct (locks_lock (w_tb w1) (w_locks w1)) as [[l bt]|]; [|done]. injection Hq as <- <-.
+  assert (Hloop : srloop rid T w (nonempty_tables w (get_tables w f)) [] false = inl (Some (w1, segs))).
+  { unfold set_relation_batch_nn in Hb. rewrite Hu in Hb. destruct (negb _); [done|]. cbn [arg_tables] in Hb.
+    change (batch_loop (fun w tid => set_relation_table w tid rid T)) with (srloop rid T) in Hb.
+    destruct (srloop rid T w (nonempty_tables w (get_tables w f)) [] false) as [[[w1' segs']|]|p]; try done.
+    by injection Hb as <- _ <-. }
+  assert (Hnd : NoDup (nonempty_tables w (get_tables w f))).
+  { unfold nonempty_tables. apply NoDup_filter. rewrite get_tables_contrib. by apply (selected_nodup w (as_live A)), K. }
+  assert (Hne : forall tid, tid ∈ nonempty_tables w (get_tables w f) -> tbl_ents w tid <> []).
+  { intros tid Hin. unfold nonempty_tables in Hin. apply elem_of_list_filter in Hin as [Hs _].
+    unfold table_skip, tbl_ents in *. destruct (w_tables w !! tid) as [t|]; [|done]. apply Nat.eqb_neq in Hs. unfold tlen in Hs. by destruct (t_ents t). }
+  destruct (srloop_segs (as_live A) rid T _ w [] false w1 segs Hnd (r2_ok _ _ _ K) C Hne Hloop)
+    as (new & Hsegs & Hflat & Hall & _). simpl in Hsegs. subst new.
+  eexists w1, _, _, _. split; [reflexivity|]. simpl.
+  split; [done|]. split; [done|]. repeat (split; [done|]).
+  set (segs' := map (fun s => mkSeg (s_tid s) (s_start s) (s_end s) (table_skip w1 (s_tid s)) (s_old s)) segs).
+  assert (Hsame : segs' = segs).
+  { unfold segs'. clear -Hall. induction Hall as [|s r (Hsk & Hlt & Hle) _ IH]; [done|]. simpl. rewrite IH. f_equal.
+    assert (table_skip w1 (s_tid s) = false) as ->.
+    { unfold table_skip, tbl_ents in *. destruct (w_tables w1 !! s_tid s) as [t|]; [|simpl in Hle; lia].
+      apply Nat.eqb_neq. unfold tlen. lia. }
+    destruct s. simpl in *. by rewrite Hsk. }
+  rewrite Hsame.
+  match goal with |- omap (pos_ent ?x) _ = _ => change (pos_ent x) with (pos_ent w1) end.
+  cbn [q_segs]. rewrite enum_ents.
+  - rewrite Hflat. apply table_ents_retargeted_nonempty.
+  - eapply Forall_impl; [exact Hall|]. intros s (_ & H1 & H2). split; [lia|done].
 Qed.
